@@ -80,6 +80,29 @@ N={
  'C12-d':("chain/db.go RevertBlock element revert condition off by one at the v2 require height","a branch whose block at exactly RequireHeight spends a pre-fork output, and a heavier branch forking below that spends the same output in a v1 transaction"),
  'C19-c':("chain/db.go AncestorTimestamp looks the ancestor up through Block (false once pruned) instead of the stored header","tip at or below the Oak hardfork height, the ancestor's body pruned, then a new block"),
  'C19-d':("chain/manager.go AddBlocks: break instead of continue on a pruned block in the batch","PruneBlocks mid-chain, then a heavier fork submitted in one batch that starts with known (pruned) blocks"),
+ 'C03-e':("chain/manager.go AddBlocks no longer picks up the state of already-known validated blocks (same site as C11-d, seen from C03)","a commit after an individual revert of a failed reorg, a stop, and a re-submission whose final blocks are the known validated ones"),
+ 'C03-f':("chain/db.go dbBucket.putRaw flushes whenever shouldFlush fires: a commit can complete in the middle of one block's writes","the 5 s / 100 MB threshold crossed while a block's writes are in progress and a stop before the next commit"),
+ 'C04-e':("chain/manager.go applyTip persists the supplement (AddBlock) only after store.ApplyBlock","a first-time-validated block, the periodic commit firing inside ApplyBlock, a crash before the next commit: UpdatesSince fails with a missing supplement for ever"),
+ 'C04-f':("chain/manager.go AddValidatedV2Blocks notifies only the pool listeners","a tip change through the pre-validated path"),
+ 'C05-e':("chain/manager.go AddV2PoolTransactions charges the weight of already pooled members of a set again","repeated {pooled parent, new child} submissions whose re-charged weight reaches ten block weights between two blocks: the whole pool is evicted"),
+ 'C05-f':("chain/manager.go revalidatePool prepends the reverted transactions (slice aliasing with reorgTo's scratch list)","three reorgs: fee-paying tip reverted, empty tip reverted, fee-paying tip reverted"),
+ 'C06-e':("wallet/update.go appliedEvents: break instead of continue on a contract diff that is not a resolution","a block in which a contract formation/revision precedes the resolution of another contract paying the wallet"),
+ 'C06-f':("wallet/update.go zero-valued outputs paying the wallet are skipped on apply and revert","a zero-valued payout created by consensus (missed host payout 0, empty siafund claim)"),
+ 'C07-e':("wallet/wallet.go SplitUTXO reserves its input before V2TransactionSet and never rolls back on the error paths","a SplitUTXO that passes the cheap checks and is refused by the pool / V2TransactionSet / syncer"),
+ 'C07-f':("wallet/wallet.go broadcast sets are re-loaded at start-up with the tip as basis instead of the stored basis","a broadcast set still unconfirmed, a restart with an empty pool after at least one further block"),
+ 'C09-e':("rhp/v4/server.go handleRPCAppendSectors passes state.Roots plus ALL requested roots to ReviseV2Contract instead of the accepted ones","an append batch mixing stored and unknown roots"),
+ 'C13-e':("chain/manager.go V2TransactionSet expands only the direct parents (range over a slice that grows)","a transaction whose unconfirmed pooled ancestry is at least 3 levels deep"),
+ 'C13-f':("chain/manager.go updateTxnProofs updates a loop copy of the file contract resolutions","a set containing a contract resolution rebased over a path that changes that element's proof"),
+ 'C14-e':("chain/manager.go AddPoolTransactions rollback no longer resets the pool midstate","a v1 set [A,B] with A fresh and B conflicting with the pool (rejected), then [A] alone: refused as double-spending itself"),
+ 'C14-f':("chain/manager.go PoolTransaction guard i > len instead of >=","PoolTransaction with the id of a pooled v2 transaction whose position equals the number of pooled v1 transactions"),
+ 'C15-e':("testutil/host.go AttachPools duplicate check with key and element swapped: re-attaching a link appends a second copy","the same attachment sent twice, then a paid RPC with pool < cost <= 2 x pool"),
+ 'C15-f':("rhp/v4/server.go handleRPCReplenishPools unlocks before the renter's signature + testutil CreditPoolsWithContract accepts an equal revision number (two cooperating sites)","a fund-accounts RPC run to completion while a pool replenish on the same contract is paused after its cost response"),
+ 'C17-e':("chain/db.go MemDB.Flush adopts the pending map as the flushed map on a bucket's first flush without detaching it","CreateBucket, first Flush, Put/Delete, Cancel, read"),
+ 'C17-f':("chain/db.go CacheDB.Flush returns early when the cache holds no pending puts or deletes","through a CacheDB: CreateBucket only, Flush, Cancel"),
+ 'C19-e':("chain/manager.go AddBlocks returns ErrMissingBlock from reorgTo without rolling back","PruneBlocks(P) mid-chain, then a heavier fork whose fork point is below the min reorg index"),
+ 'C19-f':("chain/manager.go PruneBlocks loses the min(height, tip+1) clamp","a prune height greater than tip+1"),
+ 'C20-e':("wallet/seed.go decodeBIP39Phrase rejects phrases shorter than 59 characters","a valid phrase made of 3- and 4-letter words (47..58 characters)"),
+ 'C20-f':("wallet/seed.go KeyFromSeed streams into a shared package-level hasher without a lock","two goroutines deriving keys at the same time"),
  'C19-a':("chain/manager.go PruneBlocks walks upwards from genesis and breaks on the first missing body","prune at h1>=1, then prune again at h2>h1"),
  'C19-b':("chain/manager.go MinReorgIndex checks Header instead of Block","PruneBlocks mid-chain, then a heavier fork with fork point at the reported index"),
  'C20-a':("wallet/seed.go decodeBIP39Phrase never checks the 12th word against the word list (reads as index 0)","11 valid words followed by an unknown token where the same 11 words plus 'abandon' have a valid checksum (1 in 16)"),
@@ -106,6 +129,14 @@ H={'C02-a':"missed by the first version of C02 (all workloads used distinct wind
  'C14-d':"missed at first (pooled members always came first in partly known sets); any dependency-respecting order, incl. ending with a pooled member, added",
  'C11-b':"missed at first; multi-step SendV2Blocks answers (short first batch, corrupted continuation) added",
  'C11-c':"missed at first; hit-and-run twins (same offence staying connected / hanging up before the verdict) with a recording peer store added",
+ 'C05-e':"missed at first (no workload re-submitted pooled members often enough); the resubmission scenario and the eviction-only-when-full oracle were added",
+ 'C14-e':"missed at first; the valid fresh part of every deliberately rejected set is now offered again alone",
+ 'C20-e':"caught by the extreme-length phrases added just before this seed was run (random sampling alone does not reach 47..58-character phrases)",
+ 'C20-f':"first run ended INCONCLUSIVE (the mutant panics inside blake2b in a worker goroutine); derivations are now guarded and a panic is a violation",
+ 'C11-d':"missed by C11/C12 at first, caught by C01 after the validated-prefix resubmission step was added; C11 gained the honest-prefix-after-Byzantine-extension family (which also exposed F-C11-7)",
+ 'C11-e':"missed at first; C11 now records what the victim relays to an honest observer and the bans honest nodes issue",
+ 'C12-c':"missed at first; C12 gained an honest lab peer that serves short header batches",
+ 'C04-e':"a crash-consistency change: decided by C03 (reopen at every commit), not visible to C04's in-process subscribers",
  'C18-b':"missed at first; stalled partial requests at every stage against Close added"}
 rows=[]
 for d in sorted(glob.glob('/verif/seeded/*')):
